@@ -35,7 +35,7 @@ uint32_t X_vasprintf(uint8_t* outp_, uint8_t* fmt_, uint8_t* va_) {
   else {
     char with[] = "%zu bytes (%.02f ?B)", without[] = "%.02f ?B";
     for (int k = 1; k <= 6; k++) {
-      with[18] = UNITS[k]; without[6] = UNITS[k];
+      with[17] = UNITS[k]; without[6] = UNITS[k];
       if (str_eq(fmt, with)) { r_fmt_ok = 1; r_unit = k; r_with_bytes = 1; }
       if (str_eq(fmt, without)) { r_fmt_ok = 1; r_unit = k; r_with_bytes = 0; }
     }
